@@ -1,7 +1,8 @@
 """C01 — pipeline property decided by the Lean oracle on generated crystals (see checks/pipe.py)."""
 from checks import pipe
 
-PROPS = [("Moyo.Props.C01", "Moyo/Props/C01.lean"), ("Moyo.Props.C01Stages", "Moyo/Props/C01Stages.lean")]
+PROPS = [("Moyo.Props.C01", "Moyo/Props/C01.lean"), ("Moyo.Props.C01Stages", "Moyo/Props/C01Stages.lean"),
+         ("Moyo.Props.C01Pipeline", "Moyo/Props/C01Pipeline.lean")]
 
 
 def nontrivial(p, line):
